@@ -2,6 +2,7 @@ mod alloc;
 mod corpus;
 mod explore;
 mod history;
+mod jsonpath;
 mod programs;
 mod r#gen;
 mod lockstep;
@@ -24,10 +25,13 @@ fn main() {
     }
     let code = match cfg.prop.as_str() {
         "C02" => props::c02::run(&cfg),
+        "C04" => props::c04::run(&cfg),
         "C05" => props::c05::run(&cfg),
+        "C06" => props::c06::run(&cfg),
         "C08" => props::c08::run(&cfg),
         "C09" => props::c09::run(&cfg),
         "C10" => props::c10::run(&cfg),
+        "C15" => props::c15::run(&cfg),
         "C16" => props::c16::run(&cfg),
         "C17" => props::c17::run(&cfg),
         "C18" => props::c18::run(&cfg),
